@@ -25,6 +25,11 @@ def generate_all():
         bytes_delegation.generate(REPO)
     except Exception as ex:
         errs.append('bytes_delegation: %s' % ex)
+    try:
+        import validators
+        write_if_changed(os.path.join(COQ, 'Gen/Validators.v'), validators.emit_coq(validators.translate(REPO)))
+    except Exception as ex:
+        errs.append('validators: %s' % ex)
     return errs
 
 if __name__ == '__main__':
